@@ -1247,6 +1247,8 @@ def main(outfile):
     import py2lean_fsmtimer
     py2lean_fsmtimer.main_fsmtimer(os.path.join(os.path.dirname(outfile), 'TranslatedFsmTimer.lean'), sys.modules[__name__])
 
+    import py2lean_fsmtables                                     # separate module: FSM tables, __init__, _run_cb, _send_events, _event (C03)
+    py2lean_fsmtables.main_fsmtables(os.path.join(os.path.dirname(outfile), 'TranslatedFsmTables.lean'), write_if_changed)
 
 if __name__ == '__main__':
     main(sys.argv[1])
